@@ -170,7 +170,7 @@ theorem posB_init {start stop fS fE eps : α} {s : St α}
   obtain ⟨hle, hlt, _, hlo, hhi, he, _, hc, _⟩ := init_some h
   have hd : s.d = s.a := by
     unfold init at h
-    simp only [hle, hlt, not_true_eq_false, if_false, Option.some.injEq] at h
+    simp only [hle, (oppSign_iff _ _).mpr hlt, not_true_eq_false, if_false, Option.some.injEq] at h
     rw [← h]
   have haL : start ≤ s.a := by rw [← hlo]; exact min_le_left _ _
   have haH : s.a ≤ stop := by rw [← hhi]; exact le_max_left _ _
@@ -187,7 +187,7 @@ theorem interp_needs_small_b {L H e : α} (s : St α) (h : PosB L H e s) (he : 0
   have hc0 : 0 < s.c := lt_of_lt_of_le h.posL h.cL
   have hd0 : 0 < s.d := lt_of_lt_of_le h.posL h.dL
   have hu' : ¬ useBisect s dx = true := by rw [hu]; simp
-  simp only [useBisect, absv_eq_abs, hb, Bool.false_and, Bool.or_false, Bool.not_false,
+  simp only [useBisect_eq, useBisect5, absv_eq_abs, hb, Bool.false_and, Bool.or_false, Bool.not_false,
     Bool.true_and, Bool.or_eq_true, decide_eq_true_eq, not_or, h.epsEq] at hu'
   obtain ⟨_, h5⟩ := hu'
   have h5 : |2 * e * s.b| ≤ |s.c - s.d| := not_lt.mp h5
